@@ -26,7 +26,7 @@ use palette::white_point::D65;
 use palette::{Alpha, Lab, LinSrgb, Luv, Oklab, Xyz, Yxy};
 use pvh::*;
 use serde_json::{json, Value};
-use std::collections::BTreeMap;
+use std::collections::{BTreeMap, HashSet};
 
 // ------------------------------------------------------------------------------------------ floats
 
@@ -98,6 +98,10 @@ struct Out {
     rec: Rec,
     counts: BTreeMap<String, u64>,
     panics: u64,
+    /// while the grid is enumerated: the distinct per-channel cases (cs, cb, as, ab) actually executed, per mode/operator
+    /// (LinSrgb<f64>, Alpha form) - reported so that the check can compare them with the cases MC_Blend enumerates
+    counting: bool,
+    cases: BTreeMap<String, HashSet<[u64; 4]>>,
 }
 
 fn nums<F: Fl>(xs: &[F]) -> Value { Value::Array(xs.iter().map(|x| x.ex()).collect()) }
@@ -145,6 +149,12 @@ fn in_form<F: Fl, C: Col<F>>(
 impl Out {
     fn op<F: Fl, C: Col<F>>(&mut self, ev: &str, mode: &str, form: &str, s: &In<F>, d: &In<F>, r: Result<Vec<F>, String>, q: Option<Value>) {
         *self.counts.entry(ev.to_string()).or_insert(0) += 1;
+        if self.counting && (ev == "blend" || ev == "compose") && form == "alpha" && C::NAME == "LinSrgb" && F::NAME == "f64" {
+            let set = self.cases.entry(mode.to_string()).or_default();
+            for i in 0..C::N {
+                set.insert([s.straight[i].as_f64().to_bits(), d.straight[i].as_f64().to_bits(), s.alpha.as_f64().to_bits(), d.alpha.as_f64().to_bits()]);
+            }
+        }
         let n_out = if form == "opaque" { C::N } else { C::N + 1 };
         let mut v = json!({"ev": ev, "mode": mode, "form": form, "ty": C::NAME, "t": F::NAME, "n": C::N,
                            "src": nums(&s.logged(form)), "dst": nums(&d.logged(form)),
@@ -388,6 +398,7 @@ where
     Equations: BlendFunction<C>,
 {
     let g = p.g;
+    o.counting = true;
     // the grid: every per-channel case for every mode/operator in the Alpha and PreAlpha forms, the opaque form on as = ab = 1
     for ias in 0..=g {
         for iab in 0..=g {
@@ -403,6 +414,7 @@ where
             }
         }
     }
+    o.counting = false;
     // Equations: every (equation, source parameter, destination parameter) for the colour, paired with a permutation of
     // the same 500 combinations for alpha
     let mut rng = Sm64::new(seed ^ 0xE9 ^ ((C::N as u64) << 8) ^ ((F::NAME.len() as u64) << 16));
@@ -611,7 +623,7 @@ fn run_one(o: &mut Out, e: &Value) {
 
 fn main() {
     let out = arg_or("--out", "-");
-    let mut o = Out { rec: Rec::create(&out), counts: BTreeMap::new(), panics: 0 };
+    let mut o = Out { rec: Rec::create(&out), counts: BTreeMap::new(), panics: 0, counting: false, cases: BTreeMap::new() };
     if let Some(one) = arg("--one") {
         let e: Value = serde_json::from_str(&one).expect("event json");
         run_one(&mut o, &e);
@@ -626,7 +638,8 @@ fn main() {
     drive_all::<f64>(&mut o, &p, seed);
     let counts = o.counts.clone();
     let panics = o.panics;
+    let operations = o.cases.len();
+    let per_op = o.cases.values().map(|s| s.len()).min().unwrap_or(0);
     let n = o.rec.finish();
-    let m = (p.g + 1) as u64;
-    eprintln!("{}", json!({"events": n, "per_ev": counts, "panics": panics, "grid": p.g, "grid_cases_per_operation": m * m * m * m}));
+    eprintln!("{}", json!({"events": n, "per_ev": counts, "panics": panics, "grid": p.g, "operations": operations, "grid_cases_per_operation": per_op}));
 }
